@@ -580,9 +580,14 @@ class InterestNameField(Field):
     def parse_from(self, instance, markers: dict, wire: BinaryStr, offset: int, length: int, offset_btl: int):
         name = Name.decode(wire, offset_btl)[0]
         sig_cover_part = self.sig_covered_part.get_arg(markers)
+        digest_seen = False
         for ele in name:
             typ = Component.get_type(ele)
             if typ == Component.TYPE_PARAMETERS_SHA256:
+                if digest_seen:
+                    # Such a component is not covered by the signature: a second one would be a free edit of a signed name
+                    raise DecodeError('An Interest name has at most one ParametersSha256DigestComponent')
+                digest_seen = True
                 self.digest_buffer.set_arg(markers, Component.get_value(ele))
             else:
                 sig_cover_part.append(ele)
